@@ -54,46 +54,57 @@ def identifierAux (isPre : Bool) : Nat → (input : Text) → (acc : Text) → O
 def identifier (isPre : Bool) (input : Text) : Option (Text × Text) :=
   identifierAux isPre (input.length + 1) input []
 
+/-- an optional `-prerelease` part: (prerelease, rest); `none` = malformed -/
+def preStep (t : Text) : Option (Text × Text) :=
+  match t with
+  | '-' :: t' =>
+    match identifier true t' with
+    | some (pre, r) => if pre.isEmpty then none else some (pre, r)
+    | none => none
+  | _ => some ([], t)
+
+/-- an optional `+build` part -/
+def buildStep (t : Text) : Option (Text × Text) :=
+  match t with
+  | '+' :: t' =>
+    match identifier false t' with
+    | some (b, r) => if b.isEmpty then none else some (b, r)
+    | none => none
+  | _ => some ([], t)
+
+/-- what follows `major.minor.patch` -/
+def tailStep (major minor patch : Nat) (t : Text) : Option Version :=
+  if t.isEmpty then some ⟨major, minor, patch, [], []⟩
+  else
+    match preStep t with
+    | none => none
+    | some (pre, t) =>
+      match buildStep t with
+      | none => none
+      | some (build, t) => if t.isEmpty then some ⟨major, minor, patch, pre, build⟩ else none
+
+def expectDot (t : Text) : Option Text :=
+  match t with
+  | '.' :: r => some r
+  | _ => none
+
 /-- `Version::parse` (strict SemVer 2.0 with u64 components). -/
 def parseStrict (t : Text) : Option Version :=
   match numericIdent t with
   | none => none
   | some (major, t) =>
-  match t with
-  | '.' :: t =>
-    match numericIdent t with
-    | none => none
-    | some (minor, t) =>
-    match t with
-    | '.' :: t =>
-      match numericIdent t with
-      | none => none
-      | some (patch, t) =>
-        if t.isEmpty then some ⟨major, minor, patch, [], []⟩
-        else
-          let preR : Option (Text × Text) :=
-            match t with
-            | '-' :: t' =>
-              match identifier true t' with
-              | some (pre, r) => if pre.isEmpty then none else some (pre, r)
-              | none => none
-            | _ => some ([], t)
-          match preR with
-          | none => none
-          | some (pre, t) =>
-            let buildR : Option (Text × Text) :=
-              match t with
-              | '+' :: t' =>
-                match identifier false t' with
-                | some (b, r) => if b.isEmpty then none else some (b, r)
-                | none => none
-              | _ => some ([], t)
-            match buildR with
-            | none => none
-            | some (build, t) =>
-              if t.isEmpty then some ⟨major, minor, patch, pre, build⟩ else none
-    | _ => none
-  | _ => none
+  match expectDot t with
+  | none => none
+  | some t =>
+  match numericIdent t with
+  | none => none
+  | some (minor, t) =>
+  match expectDot t with
+  | none => none
+  | some t =>
+  match numericIdent t with
+  | none => none
+  | some (patch, t) => tailStep major minor patch t
 
 /-- `Display for Version` -/
 def toText (v : Version) : Text :=
